@@ -165,4 +165,7 @@ W6 == /\ pc[W] = "W6" /\ DecStep(W, loc[W].old, "start")
 Next == R1 \/ R2 \/ R3 \/ R4 \/ UseOwned \/ Use \/ Drop \/ RDec \/ W0 \/ W1 \/ W2 \/ W3 \/ W4 \/ W5 \/ W6
 Spec == Init /\ [][Next]_vars
 Safe == err = "ok"
+\* checked separately, so that a use after free found first does not hide a race (and vice versa)
+SafeUaf == err \notin {"uaf-inc", "uaf-dec", "uaf-deref", "debt-overwritten"}
+SafeRace == err \notin {"race-read-init", "race-destroy-init", "race-destroy-read"}
 ====
